@@ -34,6 +34,11 @@ def gen_life(tier, rng, translation_heavy=False):
             for mid in (["rx:0:0:1"], ["rx:1:0:1"], ["rx:0:0:1", "rx:0:0:1"]):
                 for tail in (["c:0:1", "r:0:0:1"], ["c:0:1", "r:1:0:1", "go:0"], ["c:0:1", "rx:0:0:1", "u:0", "r:0:0:1"], ["d:0", "c:0:1", "r:1:0:1"]):
                     cases.append("life32 " + " ".join(pre + mid + tail))
+        # a registration refused because every entry point of the back end is taken leaves no trace either: once one is
+        # released the same function registers
+        for drv, n in (("life32", 3), ("life32", 4), ("lifen", 63), ("lifen", 64)):
+            cases.append("%s c:0:1 r:1:0:2 fill:0:%d rx:0:0:1 u:1 rx:0:0:1 go:0" % (drv, n))
+            cases.append("%s c:0:1 r:1:0:2 fill:0:%d rx:0:0:1 rx:0:0:1 u:1 rx:2:0:1 rx:0:0:3" % (drv, n))
     for _ in range(4000 if tier == "quick" else 40000):
         n = rng.randrange(4, 16)
         cases.append("life32 " + " ".join(rng.choice(alpha) for _ in range(n)))
